@@ -256,4 +256,42 @@ def run(ctx):
         ok3 = good if ok3 is None else (ok3 and good)
     ctx.check(bool(ok3), 'R3', 'get_global_route_with_netzones: bypass lookup first; found -> return', where(gg), '', key='R3|get_global_route_with_netzones|bypass')
     ctx.assume('that the gateways used are the declared ones, the Vivaldi coordinate term and the structured topologies (cluster, torus, fat-tree, dragonfly: C26) are not decided')
+    # ---- R4 a scratch Route is empty whenever it is handed to get_local_route (which appends to it) ---------------------------------------------
+    ctx.rule('R4', 'every local Route handed to get_local_route() is fresh (default-constructed or reset to Route()) since its previous use', 3)
+    from ..cfg import abstract_run as _arun
+    n4 = 0
+    for f in sorted(P.fns.values(), key=lambda f_: f_['key']):
+        if not f.get('blocks') or '/src/kernel/routing/' not in f['file']:
+            continue
+        v = A.view(f)
+        evs_all = [e for eid in range(len(f['elems'])) for e in v.events_of(eid) if e.eid == eid]
+        scratch = set()
+        for e in evs_all:
+            if e.kind == 'call' and e.q.endswith('::get_local_route') and len(e.args or ()) >= 3:
+                a = e.args[2]
+                if a[0] == 'un' and a[1] == '&' and a[2][0] == 'var' and a[2][1] == 'local':
+                    scratch.add(a[2])
+        for rv in sorted(scratch, key=repr):
+            def tr4(st, e, _rv=rv):
+                used, bad = st
+                if e.kind == 'assign' and e.lhs == _rv:
+                    r = e.rhs
+                    fresh = r[0] == 'ctor' and not r[2] or (r[0] == 'ctor' and len(r[2]) == 1 and r[2][0][0] == 'ctor' and not r[2][0][2]) or r[0] in ('init', 'none')
+                    return (None if fresh else used, bad)
+                if e.kind == 'call' and e.q.endswith('Route::operator=') and e.obj == _rv:
+                    a = e.args[0] if e.args else None
+                    fresh = a is not None and a[0] == 'ctor' and not a[2]
+                    return (None if fresh else used, bad)
+                if e.kind == 'call' and e.q.endswith('::get_local_route') and len(e.args or ()) >= 3 and e.args[2] == ('un', '&', _rv):
+                    if used:
+                        return (used, bad or 'get_local_route() at line %s appends to a Route that still holds the links of the lookup of line %s: that segment ends up twice in the global route' % (e.line, used))
+                    return (e.line, bad)
+                return None
+            ex4 = _arun(A, f, (None, None), tr4)
+            sts = ex4['normal'] | ex4['throw']
+            bad = sorted(set(x[1] for x in sts if x[1]))
+            n4 += 1
+            short = f['q'].replace('simgrid::kernel::routing::', '')
+            ctx.check(bool(sts) and not bad, 'R4', '%s: the scratch route `%s` is empty at each local lookup' % (short, rv[2]), where(f), bad[0] if bad else '', key='R4|%s|fresh %s' % (short, rv[2]))
+    ctx.require(n4 >= 3, 'R4', 'only %d scratch routes found' % n4)
     return EXPLANATION
